@@ -71,6 +71,14 @@ def eval_guard(test, valuation):
         return None if v is None else (not v)
     if isinstance(test, ast.Constant):
         return bool(test.value)
+    if isinstance(test, ast.IfExp):
+        v = eval_guard(test.test, valuation)
+        if v is None:
+            a, b = eval_guard(test.body, valuation), eval_guard(test.orelse, valuation)
+            return a if a == b else None
+        return eval_guard(test.body if v else test.orelse, valuation)
+    if isinstance(test, ast.Call) and isinstance(test.func, ast.Name) and test.func.id == 'bool' and len(test.args) == 1 and not test.keywords:
+        return eval_guard(test.args[0], valuation)
     if isinstance(test, ast.Compare) and len(test.ops) > 1:
         # a < b < c
         left = test.left
